@@ -20,9 +20,10 @@ Cfg_RejoinBig == {[BaseCfg EXCEPT !.rejoin = r, !.cid = c, !.connectUnits = 2] :
 Cfg_Wake == {[BaseCfg EXCEPT !.connectUnits = u, !.ka = k, !.pingTmo = 1] : u \in {1, 2}, k \in {0, 1}}
 Cfg_Drain == {[BaseCfg EXCEPT !.drain = d] : d \in {"None", "One"}}
 Cfg_Ka1 == {[BaseCfg EXCEPT !.ka = 1, !.drain = "One"]}
+Cfg_AliasExact == {[BaseCfg EXCEPT !.resolver = r, !.lruMax = 2] : r \in {"null", "manual", "lru"}}
 Cfg_Versions == {[BaseCfg EXCEPT !.ver = v, !.policy = p] : v \in {5, 311}, p \in {"All", "Ack"}}
 
-Op(kind, qos) == [kind |-> kind, qos |-> qos, tmo |-> None, retain |-> FALSE, need |-> "none", topic |-> "t1", ualias |-> 0, units |-> 1, n |-> IF kind = "pub" THEN 0 ELSE 1]
+Op(kind, qos) == [kind |-> kind, qos |-> qos, tmo |-> None, retain |-> FALSE, need |-> "none", topic |-> "t1", ualias |-> 0, units |-> 1, plen |-> -1, n |-> IF kind = "pub" THEN 0 ELSE 1]
 
 Sub_Pubs == {Op("pub", 0), Op("pub", 1), Op("pub", 2)}
 Sub_Acked == {Op("pub", 1), Op("pub", 2), Op("sub", 0)}
@@ -36,6 +37,9 @@ Sub_Timeouts2 == {[Op("pub", 2) EXCEPT !.tmo = 2], [Op("sub", 0) EXCEPT !.tmo = 
 Sub_Big2 == {[Op("pub", 2) EXCEPT !.units = 2, !.tmo = 2], Op("sub", 0)}
 Sub_Mix3 == {Op("pub", 0), Op("pub", 2), Op("sub", 0)}
 Sub_Alias == {[Op("pub", 0) EXCEPT !.topic = t, !.ualias = a, !.retain = r] : t \in {"t1", "t2"}, a \in {0, 1}, r \in {FALSE, TRUE}}
+\* QoS 0 publishes to "t1" with exact payload lengths: on the wire 7 + plen bytes without an alias, 10 + plen when a new alias
+\* is bound (topic and alias property), 8 + plen when the alias replaces the topic - the limit of Ck_Exact (30) falls between them
+Sub_Exact == {[Op("pub", 0) EXCEPT !.ualias = a, !.plen = n, !.units = 2] : a \in {0, 1}, n \in {20, 21, 22, 23, 24}}
 Sub_Validation == {Op("pub", 1), Op("pub", 2), [Op("pub", 0) EXCEPT !.retain = TRUE], [Op("sub", 0) EXCEPT !.need = "wild", !.n = 2],
                    [Op("sub", 0) EXCEPT !.need = "shared", !.n = 2], [Op("pub", 0) EXCEPT !.need = "oversize"], [Op("sub", 0) EXCEPT !.need = "badfilter", !.n = 2]}
 
@@ -50,6 +54,8 @@ Ck_Fail == {Ck(0, -1), Ck(1, -1), [Ck(0, -1) EXCEPT !.rc = 135]}
 Ck_Ka == {[Ck(0, -1) EXCEPT !.ka = k] : k \in {-1, 1}}
 Ck_Alias == {[Ck(0, -1) EXCEPT !.tam = tm, !.ret = rt] : tm \in {0, 1, 2}, rt \in {-1, 0}}
 Ck_Caps == {[Ck(0, -1) EXCEPT !.mqos = q, !.ret = rt, !.wild = w, !.shared = w, !.mps = m] : q \in {-1, 1, 0}, rt \in {-1, 0}, w \in {-1, 0}, m \in {-1, 100}}
+\* a server with a small Maximum Packet Size that grants topic aliases: publishes of exact sizes around the limit (Sub_Exact)
+Ck_Exact == {[Ck(0, -1) EXCEPT !.tam = 2, !.mps = 30]}
 Ck_Acid == {Ck(0, -1), [Ck(0, -1) EXCEPT !.acid = "assigned"], Ck(1, -1)}
 
 In(qos, pid, dup) == [qos |-> qos, pid |-> pid, dup |-> dup, alias |-> "none", topic |-> "in1"]
